@@ -36,6 +36,22 @@ CLAIMS = {
              "longer scripts run through LineageRunner are decided by Trace_Script against the ideal relation.",
         note="trusted: TLC, the one-spelling renderer of abstract statements, the projection (public summary accessors); "
              "equal-to-machine histories are accepted on the strength of O1"),
+    "C06": dict(
+        design="5/C06, 3.3",
+        technique="TLC evaluation of the Graph.tla invariants (Trace_Graph) on every recorded result of the real LineageRunner (corpus + scripts from TLC-simulated Script.tla histories)",
+        text="Each result (graph, paths, role sets) of the real analyser on the harvested corpus and on scripts rendered from histories that "
+             "TLC simulates from Script.tla is projected and evaluated by TLC against the invariants of Graph.tla (a path has a hop, is a chain "
+             "of direct dependencies, starts at an unfed column, ends at a written table's column; source tables are read; the table graph "
+             "connects both ends; a resolved column has one owner; nodes retrievable). The invariants relate parts of one result, so no oracle "
+             "is needed; TLC is the evaluator of every clause on every observed result.",
+        note="trusted: TLC, the projection harness/graph_proj.py; the graph is read through LineageRunner._sql_holder; reachability is skipped above 60 column nodes"),
+    "C18": dict(
+        design="5/C18, 3.3",
+        technique="TLC evaluation of the Graph.tla export invariants (Trace_Graph) on every recorded result of the real LineageRunner",
+        text="Both Cytoscape exports and the text summary of every recorded result are compared by TLC with the observed graph and role lists: "
+             "exported nodes/edges exact, every edge endpoint and parent reference is an exported id, ids unique, the summary lists each role "
+             "set once in sorted order.",
+        note="trusted: TLC, the projection (incl. ranks for sorted order); the graph is read through LineageRunner._sql_holder"),
 }
 
 NOT_YET = "check not built yet in this round; planned as described in DESIGN.md section 5"
